@@ -214,6 +214,17 @@ def read_job(job):
                         same.append('%r read alone is not in the reaction sets' % line)
                     del o
                 res['line_vs_doc'] = same
+        if job.get('again'):
+            # the same text once more in the same session, while the first result (if any) is still held: statements are
+            # interpreted a second time against the objects of the first time; after a refused read, against what it left
+            try:
+                out2 = objectio.read_pil(job['text'], ignore=job.get('ignore'))
+                res['again'] = 'ok'
+                res['again_line'] = summary_line(out2)
+                out2 = None
+            except Exception as e:
+                res['again'] = 'err ' + type(e).__name__
+                e = None
         if out is not None and job.get('keep_only'):
             # keep only the complexes (or only the reactions / macrostates) of the result and drop everything else, collect:
             # whatever the kept objects were built from must still be alive and registered
